@@ -133,10 +133,14 @@ def main():
     meta["caught_by"] = [p for p, r in results.items() if r["exit"] == 1]
     d = os.path.join(VERIF, "seeded", a.seed_id)
     os.makedirs(d, exist_ok=True)
-    shutil.copy(patch, os.path.join(d, "patch.diff"))
-    shutil.copy(demo, os.path.join(d, "demo.py"))
+    def cp(src, dst):
+        if os.path.abspath(src) != os.path.abspath(dst):
+            shutil.copy(src, dst)
+
+    cp(patch, os.path.join(d, "patch.diff"))
+    cp(demo, os.path.join(d, "demo.py"))
     if a.notes and os.path.exists(a.notes):
-        shutil.copy(a.notes, os.path.join(d, "notes.md"))
+        cp(a.notes, os.path.join(d, "notes.md"))
         meta["needs_to_manifest"] = "see notes.md"
     meta["what_i_ran"] = "tools/seed_verify.py: baseline pytest on a scratch worktree with the patch; demo with and without the patch (PYTHONPATH=seeded/_env:<wt>/.ext:<wt>/python); ./check %s --tier %s with the patch applied to /repo, then git checkout -- ." % (a.prop, a.tier)
     # keep earlier meta fields when only re-running the checks
